@@ -90,14 +90,13 @@ def elig_job(lo, hi):
 
 def pseudo_elig_job():
     """Pseudo-instructions with literal operands whose documented expansion is the expansion of a legal RVC
-    instruction (nop, mv, li with a 6-bit value, ret, jr, jalr) must come out in 16 bits too."""
+    instruction (nop, li with a 6-bit value, ret, jr, jalr) must come out in 16 bits too.  (`mv rd, rs` = `addi rd, rs, 0` is NOT
+    in that set: c.mv expands to `add rd, x0, rs`; that the assembler compresses it anyway is an extra.)"""
     a = env.load_asm()
     res = env.Result()
     lines = ['nop', 'ret']
     for rd in range(1, 32):
         lines += ['jr x%d' % rd, 'jalr x%d' % rd]
-        for rs in (1, 2, 8, 15, 16, 31, rd):
-            lines.append('mv x%d, x%d' % (rd, rs))
         for v in (-32, -1, 0, 1, 5, 31):
             lines.append('li x%d, %d' % (rd, v))
     src = '\n'.join(lines) + '\n'
